@@ -577,6 +577,14 @@ def work_2d(item):
         z = np.empty((2, 2), dtype=object)
         sp.eval_vector(X, Y, z, e1, e2)
         out['inplace'] = z
+        # scattered-point in-place kernels ({nu,cu}_eval_spline_2d_vector; not reachable through Spline2D): points (x,y) and
+        # (a, b_end), output array holding arbitrary values on entry (g0 symbolic, 7/3)
+        fn = m['cuf'].cu_eval_spline_2d_vector if uf else m['sef'].nu_eval_spline_2d_vector
+        for (e1, e2) in ders:
+            zz = np.empty(2, dtype=object)
+            zz[0], zz[1] = SReal(z3.Real('g0')), K(Fr(7, 3))
+            fn(X, Y, B1.knots, d1, B2.knots, d2, sp.coeffs, zz, e1, e2)
+            out[('vector', e1, e2)] = zz
         return out
 
     def oracle(C, xx, yy, e1, e2):
@@ -621,6 +629,10 @@ def work_2d(item):
         checks = []
         for (e1, e2) in ders:
             checks.append((('scalar', e1, e2), val[('scalar', e1, e2)], oracle(C, x, y, e1, e2)))
+        for (e1, e2) in ders:
+            Z = val[('vector', e1, e2)]
+            checks.append((('vector%d%d' % (e1, e2), 0, 0), Z[0], oracle(C, x, y, e1, e2)))
+            checks.append((('vector%d%d' % (e1, e2), 1, 1), Z[1], oracle(C, K(b1[0]), K(b2[-1]), e1, e2)))
         e1, e2 = ders[0]
         for name in ('cross', 'inplace'):
             Z = val[name]
@@ -667,6 +679,10 @@ def confirm_2d(m, item, mdl, st, name, res):
     if ep == 'scalar':
         e1, e2 = i0, i1
         px, py = xv, yv
+    elif ep.startswith('vector'):
+        e1, e2 = int(ep[6]), int(ep[7])
+        px = xv if i0 == 0 else b1[0]
+        py = yv if i1 == 0 else b2[-1]
     else:
         e1, e2 = ders[0]
         px = xv if i0 == 0 else b1[0]
@@ -680,7 +696,12 @@ def confirm_2d(m, item, mdl, st, name, res):
             got = float(sp.eval(float(px), float(py), e1, e2))
         else:
             X, Y = np.array([float(xv), float(b1[0])]), np.array([float(yv), float(b2[-1])])
-            if ep == 'cross':
+            if ep.startswith('vector'):
+                fn = m['cuf'].cu_eval_spline_2d_vector if path == 'cu' else m['sef'].nu_eval_spline_2d_vector
+                z = np.array([float(Fr(symx.model_value(mdl, SReal(z3.Real('g0'))))), 7.0 / 3.0])
+                fn(X, Y, B1.knots, d1, B2.knots, d2, sp.coeffs, z, e1, e2)
+                got = float(z[i0])
+            elif ep == 'cross':
                 got = float(sp.eval(X, Y, e1, e2)[i0, i1])
             else:
                 z = np.empty((2, 2))
@@ -700,6 +721,99 @@ def confirm_2d(m, item, mdl, st, name, res):
         res['violations'].append(('eval2d:%s' % path, '2-D %s entry point: code %s vs exact %s at (%s,%s) %r' % (ep, got, float(exact), float(px), float(py), item[:3]), rep))
         return True
     return False
+
+
+# ----------------------------------------------------------------------------- binary64 span search of the fast path
+FP_DOMAINS_QUICK = [(-1.0, 1.0, 4), (0.0, 1.0, 8), (-float(np.pi), float(np.pi), 8), (-5.0, 5.0, 10), (0.0, 2 * float(np.pi), 16)]
+FP_DOMAINS_THOROUGH = FP_DOMAINS_QUICK + [(0.1, 14.5, 256), (0.1, 14.5, 32), (-7.32, 7.32, 32), (-7.32, 7.32, 128), (0.0, 1506.759067, 32),
+                                          (0.0, 2 * float(np.pi), 64), (-3.0, 7.0, 3), (1e-3, 1.0, 7)]
+
+
+def work_fp_span(item):
+    """cu_find_span run on binary64 proxies (lib/symfp): for EVERY double x with xmin <= x <= xmax of the listed domains
+    (xmin, xmax, dx, ncells exactly as the real BSplines stores them) the returned span lies in [3, ncells+2] (the four
+    coefficients read exist) and the offset in [0, 1]: no rounding of (x-xmin)/dx near a cell edge or one ulp inside an
+    end point leaves the coefficient array.  QF_FP, bit-precise, no sampling."""
+    from lib import symfp
+    xmin, xmax, n, canary = item
+    res = H.worker_result()
+    m = numenv.mods()
+    t0 = time.time()
+    if canary:
+        apply_canary(m, canary)
+    numenv.disable()
+    cuf, spl = m['cuf'], m['spl']
+    breaks = np.linspace(xmin, xmax, n + 1)
+    basis = spl.BSplines(spl.make_knots(breaks, 3, False), 3, False, True)
+    kxmin, kxmax, kdx, kn = [float(v) for v in basis.knots]
+    kn = int(kn)
+
+    def body(ctx):
+        ctx.oneshot = True
+        x = symfp.var('x')
+        ctx.assume(z3.And(z3.fpGEQ(x.t, symfp.lift(kxmin)), z3.fpLEQ(x.t, symfp.lift(kxmax))))
+        span, off = cuf.cu_find_span(kxmin, kxmax, kdx, x, kn)
+        return x, span, off
+
+    had_int = 'int' in vars(cuf)
+    old_int = vars(cuf).get('int')
+    cuf.int = symfp.fp_int
+    try:
+        for ctx, (kind, val) in symx.explore(body, timeout_ms=300000):
+            if kind == 'abort':
+                if val.inconclusive:
+                    res['inconclusive'].append('fp span abort %s %r' % (val.why, item[:3]))
+                continue
+            res['obligations'] += 1
+            if kind == 'exc':
+                res['inconclusive'].append('fp span exception %r %r' % (val, item[:3]))
+                continue
+            x, span, off = val
+            st, ot = symfp.lift(span), symfp.lift(off)
+            good = z3.And(z3.fpGEQ(st, symfp.lift(3)), z3.fpLEQ(st, symfp.lift(kn + 2)), z3.fpGEQ(ot, symfp.lift(0.0)), z3.fpLEQ(ot, symfp.lift(1.0)))
+            r = ctx.check(z3.Not(good))
+            if r == 'unsat':
+                res['discharged'] += 1
+                res['nontrivial'].append('fpspan|%r|%s' % (item[:3], ''.join('T' if d['choice'] else 'F' for d in ctx.decisions)))
+            elif r == 'sat':
+                xv = symfp.model_float(ctx.model(), x)
+                cuf.int = old_int if had_int else int
+                try:
+                    got = cuf.cu_find_span(kxmin, kxmax, kdx, xv, kn)
+                    ok = 3 <= got[0] <= kn + 2 and 0.0 <= got[1] <= 1.0
+                    sp = spl.Spline1D(basis)
+                    sp.coeffs[:] = 1.0
+                    try:
+                        ev = repr(float(sp.eval(xv)))
+                    except Exception as e:
+                        ev = '%s: %s' % (type(e).__name__, e)
+                except Exception as e:
+                    got, ok, ev = repr(e), False, repr(e)
+                finally:
+                    cuf.int = symfp.fp_int
+                rep = dict(kind='fpspan', xmin=repr(kxmin), xmax=repr(kxmax), dx=repr(kdx), ncells=kn, x=repr(xv), span_offset=str(got), spline_eval=ev, canary=bool(canary))
+                if not ok:
+                    res['violations'].append(('cu_find_span:binary64', 'cu_find_span(%r, %r, %r, x=%r, %d) returns %s (span must be in [3,%d], offset in [0,1]); '
+                                              'Spline1D.eval with unit coefficients there: %s' % (kxmin, kxmax, kdx, xv, kn, got, kn + 2, ev), rep))
+                else:
+                    res['inconclusive'].append('binary64 model does not reproduce: %r' % rep)
+            else:
+                res['inconclusive'].append('unknown binary64 span query %r' % (item[:3],))
+    finally:
+        if had_int:
+            cuf.int = old_int
+        else:
+            try:
+                del cuf.int
+            except AttributeError:
+                pass
+    if canary:
+        undo_canary(m)
+    res['stats'] = symx.GLOBAL.as_dict()
+    symx.GLOBAL.__init__()
+    res['wall'] = round(time.time() - t0, 2)
+    res['canary'] = canary[0] if canary else None
+    return res
 
 
 # ----------------------------------------------------------------------------- canaries (in-memory source mutants)
@@ -749,6 +863,7 @@ CANARIES = [
     ('right end point maps to last span + 1', 'sef', [("        returnVal = high-1\n", "        returnVal = high-1 if x > knots[high] else high-2\n")]),
     ('uniform cubic derivative sign', 'cuf', [("ders[1] = -coeff * (1+2*b-3*b*b)", "ders[1] = -coeff * (1+2*b-3*b*o)")]),
 ]
+FP_CANARY = ('last cell decided by x == xmax instead of span == ncells', 'cuf', [("    if span == ncells:\n", "    if x == xmax:\n")])
 
 
 def configs(tier):
@@ -797,7 +912,8 @@ def main():
     run.functions = H.src_info(sef.nu_find_span, sef.nu_basis_funs, sef.nu_basis_funs_1st_der, sef.nu_eval_spline_1d_scalar,
                                sef.nu_eval_spline_1d_vector, sef.nu_eval_spline_2d_scalar, sef.nu_eval_spline_2d_cross,
                                cuf.cu_find_span, cuf.cu_basis_funs, cuf.cu_basis_funs_1st_der, cuf.cu_eval_spline_1d_scalar,
-                               cuf.cu_eval_spline_1d_vector, cuf.cu_eval_spline_2d_scalar, cuf.cu_eval_spline_2d_cross,
+                               cuf.cu_eval_spline_1d_vector, cuf.cu_eval_spline_2d_scalar, cuf.cu_eval_spline_2d_cross, cuf.cu_eval_spline_2d_vector,
+                               sef.nu_eval_spline_2d_vector,
                                spl.make_knots, spl.BSplines.__init__, spl.BSplines.__getitem__, spl.Spline1D.eval,
                                spl.Spline1D.eval_vector, spl.Spline2D.eval, spl.Spline2D.eval_vector)
     c1, c2 = configs(run.tier)
@@ -818,6 +934,15 @@ def main():
     for r in H.pmap(work_2d, c2, run.args.jobs):
         sub += r.get('sub_rounding', 0)
         run.merge(r)
+    fpd = FP_DOMAINS_QUICK if run.tier == 'quick' else FP_DOMAINS_THOROUGH
+    fp_items = [d + (None,) for d in fpd] + [(-1.0, 1.0, 4, FP_CANARY)]
+    for r in H.pmap(work_fp_span, fp_items, run.args.jobs):
+        if r.get('canary'):
+            run.add_stats(r.get('stats', {}))
+            caught[r['canary']] = bool(r['violations'])
+            continue
+        run.merge(r)
+    run.sections['binary64_span_domains'] = [list(d) for d in fpd]
     if run.tier == 'quick':
         sk = [(1, False, 2, 'all', 'graded'), (2, False, 2, 'all', 'graded'), (2, True, 3, 'all', 'graded'), (3, False, 4, 2, 'irregular'), (3, True, 4, 1, 'irregular')]
         for r in H.pmap(work_symknots, sk, run.args.jobs):
@@ -842,7 +967,7 @@ def main():
         for r in H.pmap(work_symknots, sk, run.args.jobs):
             run.merge(r)
         run.sections['symbolic_break_point_configs'] = len(sk)
-    for cn in CANARIES:
+    for cn in CANARIES + [FP_CANARY]:
         hit = caught.get(cn[0], False)
         run.canaries.append(dict(name=cn[0], detected=hit))
         if not hit:
@@ -855,14 +980,14 @@ def main():
     run.sections['configs_2d'] = len(c2)
     run.bounds = dict(quick='degrees 1-5, 3 knot families, cells<=6, uniform-cubic fast path cells 1,2,5; 2-D three configurations',
                       thorough='1-D degrees 1-10, 5 knot families, cells in {1,2,3,d+1,8}; 2-D degrees 1-5 x 1-5', this_run=run.tier)
-    run.outside = ['IEEE-754 rounding (floats are exact reals here; in particular int((x-xmin)/dx) one ulp inside a cell edge)',
+    run.outside = ['IEEE-754 rounding of the basis recursion and of the coefficient sums (floats are exact reals there); the span search of the uniform-cubic fast path IS decided in binary64 (every double of the listed domains), the binary search of the general path only compares, so exact reals are faithful for it',
                    'knot vectors other than the listed rational families (quick); thorough adds, through the kernels, all break points symbolic for degrees 1-2 (<= 3 cells) and degree 3 (<= 2 cells, clamped), and one symbolic interior break point for degree 3 (both boundaries) and degree 4 (clamped)']
     run.assumptions = ['exact real arithmetic stands in for doubles', 'np.around(x, 15) is the identity in exact arithmetic']
     run.finish(
         explanation='Real kernels executed on z3 Real proxies for x (,y) and all coefficients with exact rational knots; the span '
                     'search forks on x, each path (cell / knot / end point) closes with z3 deciding code == Cox-de Boor oracle for '
                     'value and first derivative, basis >= 0, sum basis = 1, sum basis\' = 0, span range, periodic closure, and that '
-                    'array / in-place / tensor-grid entry points and BSplines[i] agree with the oracle.',
+                    'array / in-place / tensor-grid / scattered-point (2d_vector, output prefilled with arbitrary values) entry points and BSplines[i] agree with the oracle; cu_find_span additionally on binary64 proxies (QF_FP): span in [3,ncells+2], offset in [0,1] for every double in the closed domain.',
         rule='case = (degree, boundary, knot family, cells, kernel path) x feasible path of the span search; distinct by decision string')
 
 
